@@ -446,7 +446,10 @@ package tree
 //@   ensures [applies] !old(n.applied) ==> err == nil && n.applied
 //@   ensures [n1_gets_the_other_subtree_in_the_same_slot] !old(n.applied) ==> (forall k int :: {n.n1.neigh[k]} 0 <= k && k < 3 ==> (old(n.n1.neigh[k]) == n.n1_2 ==> n.n1.neigh[k] == nniX(n)) && (old(n.n1.neigh[k]) != n.n1_2 ==> n.n1.neigh[k] == old(n.n1.neigh[k]) && n.n1.br[k] == old(n.n1.br[k])))
 //@   ensures [n2_gets_the_other_subtree_in_the_same_slot] !old(n.applied) ==> (forall k int :: {n.n2.neigh[k]} 0 <= k && k < 3 ==> (old(n.n2.neigh[k]) == nniX(n) ==> n.n2.neigh[k] == n.n1_2) && (old(n.n2.neigh[k]) != nniX(n) ==> n.n2.neigh[k] == old(n.n2.neigh[k]) && n.n2.br[k] == old(n.n2.br[k])))
+//@   ensures [the_two_branches_follow_their_subtrees] !old(n.applied) ==> (forall k int, m int :: {n.n1.br[k], n.n2.br[m]} 0 <= k && k < 3 && 0 <= m && m < 3 && old(n.n1.neigh[k]) == n.n1_2 && old(n.n2.neigh[m]) == nniX(n) ==> n.n1.br[k] == old(n.n2.br[m]) && n.n2.br[m] == old(n.n1.br[k]))
 //@   ensures [central_branch_reversed_exactly_when_the_root_lies_beyond_n1_2] !old(n.applied) ==> (forall k int, m int :: {n.n1.br[k], n.n1.br[m]} 0 <= k && k < 3 && 0 <= m && m < 3 && old(n.n1.neigh[k]) == n.n2 && old(n.n1.neigh[m]) == n.n1_2 ==> (old(n.n1.br[m].right) == n.n1 ? (n.n1.br[k].left == old(n.n1.br[k].right) && n.n1.br[k].right == old(n.n1.br[k].left)) : (n.n1.br[k].left == old(n.n1.br[k].left) && n.n1.br[k].right == old(n.n1.br[k].right))))
+//@   ensures [establishes_the_shape_Undo_requires] !old(n.applied) ==> nniappliedshape(n)
+//@   ensures [establishes_the_orientation_Undo_requires] !old(n.applied) ==> (forall k int :: {n.n1.neigh[k]} 0 <= k && k < 3 && n.n1.neigh[k] == nniX(n) ==> n.n1.br[k].left == n.n1) && (forall k int, m int :: {n.n1.br[k], n.n2.br[m]} 0 <= k && k < 3 && 0 <= m && m < 3 && n.n1.neigh[k] == n.n2 && n.n2.neigh[m] == n.n1_2 ==> (n.n2.br[m].right == n.n2 ? n.n1.br[k].left == n.n2 : n.n1.br[k].left == n.n1))
 //@   ensures [inv1] INV1()
 //@   ensures [inv2] INV2()
 //@   ensures [inv3_every_branch_still_joins_its_node_and_the_neighbour_in_its_slot] INV3()
@@ -461,3 +464,41 @@ package tree
 //@   ensures [true_iff_listed_as_neighbour] result <==> (exists k int :: {n.neigh[k]} 0 <= k && k < deg(n) && n.neigh[k] == next)
 //@   loop 1
 //@     invariant [scanned_prefix_has_no_match] 0 <= i && (forall k int :: {n.neigh[k]} 0 <= k && k < i ==> n.neigh[k] != next)
+
+// shape after Apply: n1 is linked to X in place of n1_2, n2 to n1_2 in place of X, central branch n1->n2 or n2->n1
+//@ define nniappliedshape(n *nni) bool = n != nil && n.t != nil && allocated(n.n1) && allocated(n.n2) && allocated(n.n1_2) && allocated(nniX(n)) && n.n1 != n.n2 && n.n1_2 != n.n1 && n.n1_2 != n.n2 && nniX(n) != n.n1 && nniX(n) != n.n2 && nniX(n) != n.n1_2 && deg(n.n1) == 3 && deg(n.n2) == 3 && linked(n.n1, n.n2) && linked(n.n2, n.n1_2) && linked(n.n1, nniX(n)) && !adjacent(n.n2, nniX(n)) && !adjacent(n.n1, n.n1_2) && !adjacent(nniX(n), n.n2) && !adjacent(n.n1_2, n.n1)
+
+//@ func (*tree.nni).Undo
+//@   requires nniappliedshape(n) && INV() && ORI() && ROOTOK(n.t)
+//@   requires forall k int :: {n.n1.neigh[k]} 0 <= k && k < 3 && n.n1.neigh[k] == nniX(n) ==> n.n1.br[k].left == n.n1
+//@   requires forall k int, m int :: {n.n1.br[k], n.n2.br[m]} 0 <= k && k < 3 && 0 <= m && m < 3 && n.n1.neigh[k] == n.n2 && n.n2.neigh[m] == n.n1_2 ==> (n.n2.br[m].right == n.n2 ? n.n1.br[k].left == n.n2 : n.n1.br[k].left == n.n1)
+//@   allocates iface
+//@   assigns n.applied, Edge.left, Edge.right, elems(n.n1.neigh), elems(n.n1.br), elems(n.n2.neigh), elems(n.n2.br), elems(n.n1_2.neigh), elems(nniX(n).neigh)
+//@   ensures [not_applied_is_a_no_op] !old(n.applied) ==> err == nil && !n.applied
+//@   ensures [undone] old(n.applied) ==> err == nil && !n.applied
+//@   ensures [n1_gets_n1_2_back_in_the_same_slot] old(n.applied) ==> (forall k int :: {n.n1.neigh[k]} 0 <= k && k < 3 ==> (old(n.n1.neigh[k]) == nniX(n) ==> n.n1.neigh[k] == n.n1_2) && (old(n.n1.neigh[k]) != nniX(n) ==> n.n1.neigh[k] == old(n.n1.neigh[k]) && n.n1.br[k] == old(n.n1.br[k])))
+//@   ensures [n2_gets_X_back_in_the_same_slot] old(n.applied) ==> (forall k int :: {n.n2.neigh[k]} 0 <= k && k < 3 ==> (old(n.n2.neigh[k]) == n.n1_2 ==> n.n2.neigh[k] == nniX(n)) && (old(n.n2.neigh[k]) != n.n1_2 ==> n.n2.neigh[k] == old(n.n2.neigh[k]) && n.n2.br[k] == old(n.n2.br[k])))
+//@   ensures [the_two_branches_return_to_their_nodes] old(n.applied) ==> (forall k int, m int :: {n.n1.br[k], n.n2.br[m]} 0 <= k && k < 3 && 0 <= m && m < 3 && old(n.n1.neigh[k]) == nniX(n) && old(n.n2.neigh[m]) == n.n1_2 ==> n.n1.br[k] == old(n.n2.br[m]) && n.n2.br[m] == old(n.n1.br[k]))
+//@   ensures [central_branch_reversed_back_exactly_when_the_root_lies_beyond_n1_2] old(n.applied) ==> (forall k int, m int :: {n.n1.br[k], n.n2.br[m]} 0 <= k && k < 3 && 0 <= m && m < 3 && old(n.n1.neigh[k]) == n.n2 && old(n.n2.neigh[m]) == n.n1_2 ==> (old(n.n2.br[m].right) == n.n2 ? (n.n1.br[k].left == old(n.n1.br[k].right) && n.n1.br[k].right == old(n.n1.br[k].left)) : (n.n1.br[k].left == old(n.n1.br[k].left) && n.n1.br[k].right == old(n.n1.br[k].right))))
+//@   ensures [inv1] INV1()
+//@   ensures [inv2] INV2()
+//@   ensures [inv3_every_branch_still_joins_its_node_and_the_neighbour_in_its_slot] INV3()
+//@   ensures [inv5] INV5()
+//@   ensures [own] OWN()
+//@   ensures [orientation_at_most_one_parent] ORI()
+//@   ensures [orientation_root_has_no_parent] ROOTOK(n.t)
+
+//@ func tree.newNNI
+//@   requires n1 != nil && n2 != nil && deg(n1) == 3 && deg(n2) == 3 && adjacent(n1, n2) && adjacent(n2, n1) && I5(n1) && I5(n2)
+//@   allocates nni, iface
+//@   assigns nothing
+//@   ensures [fresh_unapplied_move_on_the_given_branch] fresh(n) && n.t == t && n.n1 == n1 && n.n2 == n2 && n.cross == cross && !n.applied
+//@   ensures [n1_1_and_n1_2_are_the_two_other_neighbours_of_n1] n.n1_1 != n2 && n.n1_2 != n2 && n.n1_1 != n.n1_2 && (exists a int, b int :: 0 <= a && a < 3 && 0 <= b && b < 3 && n1.neigh[a] == n.n1_1 && n1.neigh[b] == n.n1_2)
+//@   ensures [n2_1_and_n2_2_are_the_two_other_neighbours_of_n2] n.n2_1 != n1 && n.n2_2 != n1 && n.n2_1 != n.n2_2 && (exists a int, b int :: 0 <= a && a < 3 && 0 <= b && b < 3 && n2.neigh[a] == n.n2_1 && n2.neigh[b] == n.n2_2)
+
+//@ func (*tree.NNIRearranger).Rearrange
+//@   flag noframe
+//@   requires t != nil
+//@   call tree.newNNI [only_on_branches_whose_two_ends_have_three_neighbours] deg(a1) == 3 && deg(a2) == 3 && a1 == e.left && a2 == e.right && a0 == t
+//@   loop 1
+//@     step [two_moves_per_eligible_branch_none_otherwise_unless_stopped] (deg(e.left) == 3 && deg(e.right) == 3 ? ghost(fncalls_f) >= atHead(ghost(fncalls_f)) + 1 && ghost(fncalls_f) <= atHead(ghost(fncalls_f)) + 2 : ghost(fncalls_f) == atHead(ghost(fncalls_f)))
